@@ -1,4 +1,4 @@
-from . import rules_rep, rules_list, inputs
+from . import rules_rep, rules_list, rules_hash, inputs
 from spec import geometry as G
 
 
@@ -31,8 +31,13 @@ def run(ctx, prog, facts, tier):
     ms = modes(tier)
     rules_rep.check_c06(ctx, prog, I, ms)
     rules_list.check_list(ctx, prog, I, 'C06')
+    # the two tests compare hashes: a board feature that does not reach the hash (or shares a table row with another) makes them
+    # withhold actions whose result is a different board
+    rules_hash.check_tables(ctx, prog)
+    rules_hash.check_index_maps(ctx, prog, I)
+    rules_hash.check_from_piece_board(ctx, prog, I)
     ctx.floor('C06 modes', ctx.analysed.get('c06_modes', 0), len(ms))
     ctx.exhaustive = False
-    ctx.assumptions += ['NOT decided: that hash equality coincides with board equality; the capture / forgetting clause as behaviour']
+    ctx.assumptions += ['NOT decided: that hash equality coincides with board equality beyond the structural clauses (every piece on every square is its own XOR term, tables pairwise distinct and non-zero, index maps injective); the capture / forgetting clause as behaviour']
     return ('Item-by-item comparison of the abstract lists valid_actions_(true) and valid_actions_(false) in every mode; the added '
             'conditions are decoded as Boolean functions over the two repetition tests.', ['factgen MIR export', 'std summaries'])
